@@ -56,6 +56,8 @@ reg(Op("quantile", "red", lambda gb, v, m, kw: gb.quantile(v, q=kw["q"], mask=m)
 for _n in ("sum", "mean", "min", "max", "count", "first", "last"):
     reg(Op(f"{_n}_transform", "row", (lambda nm: lambda gb, v, m, kw: getattr(gb, nm)(v, mask=m, transform=True))(_n),
            float_tol=_n in ("sum", "mean"), value_kinds="fiubm" if _n == "sum" else "fiubmM"))
+reg(Op("median_transform", "row", lambda gb, v, m, kw: gb.median(v, mask=m, transform=True), masks=BOOL_ONLY, float_tol=True, value_kinds="fiu"))
+reg(Op("apply_max_transform", "row", lambda gb, v, m, kw: gb.apply(v, np.max, mask=m, transform=True), masks=BOOL_ONLY, value_kinds="fi"))
 reg(Op("size_transform", "row", lambda gb, v, m, kw: gb.size(mask=m, transform=True), needs_values=False))
 for _n in ("cumsum", "cummin", "cummax"):
     reg(Op(_n, "row", (lambda nm: lambda gb, v, m, kw: getattr(gb, nm)(v, mask=m, **kw))(_n), masks=BOOL_ONLY,
